@@ -655,6 +655,189 @@ fn map_profile(out: &mut String, rng: &mut Rng, cases: usize, disc: Disc, merges
     }
 }
 
+/// Structured scenario family for the deferred-remove machinery (C08, C04, C02, C03, C09): some replica adds a few
+/// members, a reader that has seen (part of) them issues SEVERAL removes from one unchanged read (identical contexts)
+/// or from successive reads; late replicas receive the removes BEFORE the adds they observed (per-actor order kept),
+/// hold them pending, exchange states by merge in both directions, then receive the adds; duplicates; oracles.
+pub fn orswot_overtake(out: &mut String, rng: &mut Rng, cases: usize) {
+    for _ in 0..cases {
+        let n = 3 + rng.below(2); // replica 0 adds, replica 1 removes, replicas 2.. are late
+        writeln!(out, "T orswot {}", n).unwrap();
+        let mut id = 0;
+        let mut adds: Vec<usize> = vec![];
+        let nadds = 1 + rng.below(3);
+        for _ in 0..nadds {
+            if rng.chance(1, 4) {
+                writeln!(out, "G 0 o{} addall {}", id, nat_list(rng, 3, 3)).unwrap();
+            } else {
+                writeln!(out, "G 0 o{} add {}", id, rng.below(3)).unwrap();
+            }
+            adds.push(id);
+            id += 1;
+        }
+        // the remover sees a prefix of the adds (per-actor order)
+        let seen = 1 + rng.below(adds.len());
+        for a in adds.iter().take(seen) {
+            writeln!(out, "D 1 o{}", a).unwrap();
+        }
+        if rng.chance(1, 3) {
+            writeln!(out, "G 1 o{} add {}", id, rng.below(3)).unwrap();
+            id += 1;
+        }
+        let mut rms: Vec<usize> = vec![];
+        let nrms = 2 + rng.below(2);
+        for _ in 0..nrms {
+            let m = rng.below(3);
+            match rng.below(4) {
+                0 => writeln!(out, "G 1 o{} rm {}", id, m).unwrap(),
+                1 | 2 => writeln!(out, "G 1 o{} rmread {}", id, m).unwrap(),
+                _ => writeln!(out, "G 1 o{} rmall [{}]", id, m).unwrap(),
+            }
+            rms.push(id);
+            id += 1;
+        }
+        // late replicas: removes first (random subsets, random order), maybe some adds in actor order
+        for r in 2..n {
+            let mut order = rms.clone();
+            for i in (1..order.len()).rev() {
+                order.swap(i, rng.below(i + 1));
+            }
+            let take = 1 + rng.below(order.len());
+            for o in order.iter().take(take) {
+                writeln!(out, "D {} o{}", r, o).unwrap();
+                if rng.chance(1, 5) {
+                    writeln!(out, "D {} o{}", r, o).unwrap();
+                }
+            }
+        }
+        // exchange between the late replicas and others, in both directions
+        for _ in 0..(1 + rng.below(3)) {
+            let a = rng.below(n);
+            let b = 2 + rng.below(n - 2);
+            match rng.below(5) {
+                0 => writeln!(out, "M {} {}", a, b).unwrap(),
+                1 => writeln!(out, "M {} {}", b, a).unwrap(),
+                2 => writeln!(out, "ML {} {} {}", a, b, rng.below(n)).unwrap(),
+                3 => writeln!(out, "MU {} {}", b, a).unwrap(),
+                _ => writeln!(out, "AB {}", b).unwrap(),
+            }
+        }
+        // now the adds arrive at the late replicas (actor order), then everything else everywhere
+        for r in 2..n {
+            for a in adds.iter() {
+                writeln!(out, "D {} o{}", r, a).unwrap();
+            }
+            if rng.chance(1, 2) {
+                writeln!(out, "AB {}", r).unwrap();
+            }
+        }
+        for r in 0..n {
+            for o in 0..id {
+                writeln!(out, "D {} o{}", r, o).unwrap();
+            }
+        }
+        writeln!(out, "ML 0 {} {}", 1 + rng.below(n - 1), 2 + rng.below(n - 2)).unwrap();
+        writeln!(out, "E").unwrap();
+    }
+}
+
+fn force_key(args: &str, rng: &mut Rng) -> String {
+    // concentrate the action on key 0 (80 %)
+    let mut t: Vec<String> = args.split(' ').map(|x| x.to_string()).collect();
+    if t.len() >= 2 && rng.chance(4, 5) {
+        t[1] = "0".to_string();
+    }
+    t.join(" ")
+}
+
+/// Structured Map scenarios (model/implementation correspondence on the paths random histories rarely reach): one actor
+/// edits the same key repeatedly, a peer that has seen only a prefix removes the key (or edits it) concurrently, states
+/// are merged in BOTH directions and ops are delivered as well, a third replica relays; nested values Orswot / MVReg / Map.
+pub fn map_scenario(out: &mut String, rng: &mut Rng, cases: usize) {
+    let tys: [&'static str; 3] = ["map_orswot", "map_mvreg", "map_map_mvreg"];
+    for case in 0..cases {
+        let ty = tys[case % 3];
+        let mut gen_one = |rng: &mut Rng, updates_only: bool| -> String {
+            loop {
+                let a = match ty {
+                    "map_orswot" => map_orswot_args(rng, 0),
+                    "map_mvreg" => map_mvreg_args(rng, 0),
+                    _ => map_map_mvreg_args(rng, 0),
+                };
+                if !updates_only || a.starts_with("up") {
+                    return force_key(&a, rng);
+                }
+            }
+        };
+        NO_RMCTX.store(true, std::sync::atomic::Ordering::Relaxed);
+        writeln!(out, "T {} 3", ty).unwrap();
+        let mut id = 0;
+        // phase A: replica 0 edits
+        for _ in 0..(1 + rng.below(2)) {
+            writeln!(out, "G 0 o{} {}", id, gen_one(rng, true)).unwrap();
+            id += 1;
+        }
+        let a_end = id;
+        // sync 0 -> 1 (state or ops), maybe -> 2
+        if rng.chance(1, 2) {
+            writeln!(out, "M 1 0").unwrap();
+        } else {
+            for o in 0..a_end {
+                writeln!(out, "D 1 o{}", o).unwrap();
+            }
+        }
+        if rng.chance(1, 3) {
+            writeln!(out, "M 2 0").unwrap();
+        }
+        // phase B: concurrent edits: 0 keeps editing, 1 removes / edits, 2 maybe edits
+        let mut b_ops: Vec<(usize, usize)> = vec![];
+        for _ in 0..(1 + rng.below(3)) {
+            let r = rng.below(3);
+            let args = if r == 1 && rng.chance(1, 2) { format!("rm {}", if rng.chance(4, 5) { 0 } else { 1 }) } else { gen_one(rng, r == 0) };
+            writeln!(out, "G {} o{} {}", r, id, args).unwrap();
+            b_ops.push((r, id));
+            id += 1;
+        }
+        // phase C: exchange – merges in both directions and op deliveries (ascending ids = causal-safe), snapshots
+        for _ in 0..(2 + rng.below(4)) {
+            let a = rng.below(3);
+            let b = rng.below(3);
+            match rng.below(6) {
+                0 | 1 => {
+                    if a != b {
+                        writeln!(out, "M {} {}", a, b).unwrap();
+                    }
+                }
+                2 => {
+                    if a != b {
+                        writeln!(out, "M {} {}", b, a).unwrap();
+                        writeln!(out, "M {} {}", a, b).unwrap();
+                    }
+                }
+                3 => {
+                    for o in 0..id {
+                        writeln!(out, "D {} o{}", a, o).unwrap();
+                    }
+                }
+                4 => {
+                    writeln!(out, "S {} s{}", a, a).unwrap();
+                    writeln!(out, "MS {} s{}", b, a).unwrap();
+                }
+                _ => {
+                    writeln!(out, "G {} o{} {}", a, id, gen_one(rng, false)).unwrap();
+                    id += 1;
+                }
+            }
+        }
+        for r in 0..3 {
+            for o in 0..id {
+                writeln!(out, "D {} o{}", r, o).unwrap();
+            }
+        }
+        writeln!(out, "EQ 0 1").unwrap();
+    }
+}
+
 pub fn main(args: &[String]) {
     let profile = args.first().map(|s| s.as_str()).unwrap_or("");
     let seed: u64 = args.get(1).and_then(|s| s.parse().ok()).unwrap_or(1);
@@ -950,6 +1133,8 @@ pub fn main(args: &[String]) {
             }
         }
         "merkle_small_all_orders" => crate::gen_merkle::small_all_orders(&mut out, &mut rng, cases),
+        "map_scenario" => map_scenario(&mut out, &mut rng, cases),
+        "orswot_overtake" => orswot_overtake(&mut out, &mut rng, cases),
         "lww_conflict" => {
             // deliberately reused markers: validate_op / validate_merge must flag equal marker + different value, only
             for _ in 0..cases {
